@@ -105,7 +105,7 @@ check(
 )
 check(
     "C20", "mpi",
-    "N = 2..12 simulated MPI ranks in one process (fake mpi4py, stub PETSc), each a baton-passing thread holding one partition produced by the real Mesher._Mesh_Get_Meshes(N) on TRI3/TRI6/QUAD4/QUAD8/TETRA4/TETRA10/HEXA8/PRISM6 meshes; a seeded scheduler chooses which rank runs between collectives (with starvation of one rank and abort + restart of the whole job from the per-rank files as faults); in 40 % of the runs the Mesher that splits the mesh has split another model into another number of parts before. Phase 1 (set model): every element and node owned exactly once, ghost layer = every foreign element touching an owned node and nothing else, local connectivity = owned + ghost rows of the global one, numbering / coordinates / tags preserved, same split twice, Mesh.Merge with mapping restores element count, measure and coordinates. Phase 2 (Dirichlet conditions plus, in 60 % of the runs, a nodal or distributed load applied the way an unchanged user script does on every rank): rows of each rank's K and load vector at its owned dofs equal the global ones; the distributed solution equals a dense global solve on every rank (static runs) or, in 30 % of the runs, (u, v, a) after each step of a time scheme equal the serial step and the mass / capacity rows are complete; Calc_Energy and the sum of Calc_Reaction equal the global values on every rank; per-rank iteration files hold the rank's slice and merge to the full vector after _Gather; per-rank Save / Load_Simu; gathered mesh equals the unpartitioned one; all ranks execute the same collective sequence (otherwise DEADLOCK with per-rank logs).",
+    "N = 2..12 simulated MPI ranks in one process (fake mpi4py, stub PETSc), each a baton-passing thread holding one partition produced by the real Mesher._Mesh_Get_Meshes(N) on TRI3/TRI6/QUAD4/QUAD8/TETRA4/TETRA10/HEXA8/PRISM6 meshes; a seeded scheduler chooses which rank runs between collectives (with starvation of one rank and abort + restart of the whole job from the per-rank files as faults); in 40 % of the runs the Mesher that splits the mesh has split another model into another number of parts before. Phase 1 (set model): every element and node owned exactly once, ghost layer = every foreign element touching an owned node and nothing else, local connectivity = owned + ghost rows of the global one, numbering / coordinates / tags preserved, same split twice, Mesh.Merge with mapping restores element count, measure and coordinates. Phase 2 (Dirichlet conditions plus, in 60 % of the runs, a nodal or distributed load applied the way an unchanged user script does on every rank): rows of each rank's K and load vector at its owned dofs equal the global ones; the distributed solution equals a dense global solve on every rank (static runs) or, in 30 % of the runs, (u, v, a) after each step of a time scheme equal the serial step and the mass / capacity rows are complete; Calc_Energy and the sum of Calc_Reaction equal the global values on every rank; per-rank iteration files hold the rank's slice and merge to the full vector after _Gather; per-rank Save / Load_Simu; gathered mesh equals the unpartitioned one; all ranks execute the same collective sequence (otherwise DEADLOCK with per-rank logs). Actors: Elastic, Thermal, linear WeakForms (scalar and vector fields, the Field of each rank bound to the main group of its part), PhaseField, HyperElastic and InElastic (Newton loops under the partition).",
     "mpi4py and petsc4py are stubs (no real parallel execution, no real PETSc back end): what runs for real is EasyFEA's partitioner and parallel bookkeeping. The serial reference is EasyFEA's own serial assembly on the unpartitioned mesh of the same gmsh model. Merge of arbitrary coincident/disjoint mesh lists is only exercised on the partitions themselves.",
     "deterministic simulation of a multi-rank world: seeded rank scheduling over rendez-vous collectives vs serial reference model, ddmin-minimised replay files",
     "DESIGN.md section 5, C20",
